@@ -23,6 +23,8 @@ func ArpaLabels() []string {
 		"0", "1", "9", "10", "255", "256", "00", "01", "000", "a", "f", "A", "g", "aa", "1a", "",
 		"in-addr", "IN-addr", "İn-addr", "xin-addr", "ip6", "Ip6", "İp6", "xip6", "arpa", "ARPA",
 		"arpa-", "com", "é", "\xff", "-", "_a", "K", "ın-addr", "x255", "host100", "::ffff:4", "::4",
+		// ACE labels whose decoded form is plain ASCII: what IDNA conversion hands back is not what came in
+		"xn--4-", "xn--in-addr-", "xn--arpa-", "xn--ip6-",
 	}
 }
 
@@ -30,11 +32,12 @@ var arpaRoots = []string{
 	"in-addr.arpa", "IN-ADDR.ARPA", "In-Addr.Arpa.", "ip6.arpa", "IP6.ARPA", "Ip6.arpa.", "in-addr.arpa.", "ip6.arpa..",
 	"xin-addr.arpa", "xip6.arpa", "0in-addr.arpa", "aip6.arpa", "in-addr.arpa.x", "ip6.arpa.com", "in-addr", "ip6", "arpa",
 	"İn-addr.arpa", "İp6.arpa", "in-addr.arpa\x00", "in-addr.ARPA", "ıp6.arpa", "ip6.arpK", "in\raddr.arpa", "ip\x16.arpa", "in-addr\x0earpa", "IN\rADDR.ARPA", "ip6\x0earpa",
+	"xn--in-addr-.arpa", "in-addr.xn--arpa-", "xn--ip6-.arpa",
 }
 
 var quickRoots = []string{"in-addr.arpa", "IN-ADDR.ARPA", "In-Addr.Arpa.", "ip6.arpa", "Ip6.arpa.", "in-addr.arpa.", "xin-addr.arpa", "in-addr.arpa.x"}
 
-var v4PrefixLabels = []string{"0", "1", "9", "10", "99", "100", "255", "256", "00", "01", "000", "1a", "a", "", "-1", "+1", "0x1", "1e1", "é", "１", "0377", "25５", "host192", "1234", "x255", "::ffff:4", "0:0:0:0:0:ffff:4", "1_0", "2_5_5", "1__0", "/", ":"}
+var v4PrefixLabels = []string{"0", "1", "9", "10", "99", "100", "255", "256", "00", "01", "000", "1a", "a", "", "-1", "+1", "0x1", "1e1", "é", "１", "0377", "25５", "host192", "1234", "x255", "::ffff:4", "0:0:0:0:0:ffff:4", "1_0", "2_5_5", "1__0", "/", ":", "xn--4-", "xn--10-"}
 
 var hexd = "0123456789abcdef"
 
@@ -49,7 +52,7 @@ func NibbleRun(n, start int) []string {
 
 // the bytes next to the three hex-digit ranges ('/' ':' '@' 'G' '`' 'g') are in: an arithmetic classifier that
 // is off by one takes exactly those
-var v6Distinguished = []string{"aa", "g", "", "A", "F", "10", "-", "é", "0x", "ff", "G", "\xff", "ａ", "0", "f", "@", "`", "/", ":", "\x10", "\x19", "1_", "_"}
+var v6Distinguished = []string{"xn--1-", "xn--a-", "aa", "g", "", "A", "F", "10", "-", "é", "0x", "ff", "G", "\xff", "ａ", "0", "f", "@", "`", "/", ":", "\x10", "\x19", "1_", "_"}
 var junkPrefixes = []string{"", "x.", "aa.", "1.", "_srv.", "a.b.", "é.", "0.", "g.", "x..", ".", "-.", "\xff."}
 
 // NameFamilies returns the families of domain-name shaped strings: generic
